@@ -5,6 +5,7 @@ import ast
 
 from ..index import AnalysisError, FuncInfo
 from ..pta import Obj
+from ..paths import key_of
 from ..report import Ctx
 from . import common as C
 
@@ -251,8 +252,78 @@ def r12_4(ctx: Ctx):
                   f'{[b.describe() for b in badl[:1]]}', key=f'{rid}::bestTrials-singleton')
 
 
+# library functions that change state of the interpreter / of numpy / of the warnings machinery for the whole process
+PROCESS_STATE_SETTERS = {
+    'numpy.seterr', 'numpy.seterrcall', 'numpy.set_printoptions', 'numpy.setbufsize', 'numpy.random.seed',
+    'numpy.random.set_state', 'random.seed', 'random.setstate', 'warnings.simplefilter', 'warnings.filterwarnings',
+    'warnings.resetwarnings', 'sys.setrecursionlimit', 'sys.setswitchinterval', 'locale.setlocale', 'os.chdir',
+    'os.putenv', 'os.umask', 'decimal.setcontext', 'signal.signal', 'logging.disable', 'gc.disable', 'gc.enable',
+    'gc.set_threshold', 'sys.settrace', 'sys.setprofile', 'threading.settrace', 'faulthandler.enable',
+}
+
+
+def r12_5(ctx: Ctx):
+    """Process-wide state outside Python objects: the floating-point error mode of numpy, the warnings filters, the
+    seeds of the global generators...  A solver that changes one of them changes the arithmetic every other solver
+    in the process sees.  The only accepted use is a change that is undone on *every* exit of the function that
+    made it - normal return, early return and exception alike (try/finally, or a context manager instead)."""
+    rid = 'R12.5'
+    ctx.rule(rid, 'pairing: a library routine that changes process-wide interpreter / numpy / warnings state restores '
+                  'the saved state on every exit (returns and exceptions); expected number of such routines: 0')
+    pta = ctx.pta
+    sites = {}
+    n_calls = 0
+    for f in ctx.ix.funcs.values():
+        if not f.module.name.startswith('iOpt.'):
+            continue
+        for nd in ast.walk(f.node):
+            if isinstance(nd, ast.Call):
+                n_calls += 1
+                if pta.ext_callees(f, nd) & PROCESS_STATE_SETTERS:
+                    sites.setdefault(f, []).append(nd)
+    ctx.analysed['R12.5_call_sites_scanned'] = n_calls
+    for f, nodes in sorted(sites.items(), key=lambda kv: kv[0].qualname):
+        if f.kind != 'function':
+            ctx.fail(rid, f.short, f.loc(nodes[0]),
+                     f'{ast.unparse(nodes[0])[:60]} at import time changes process-wide state for every user of the '
+                     f'process', key=ctx.key_for(rid, f, nodes[0]))
+            continue
+        ex = ctx.explorer(raw=True, inline=lambda g, st: False, unroll=1, max_paths=20000,
+                          may_raise=lambda ev: not (set(c for c in ev.d['callees'] if isinstance(c, str))
+                                                    & PROCESS_STATE_SETTERS))
+        bad = None
+        for p in ex.explore(f):
+            saved = []          # results of setter calls on this path
+            dirty = None
+            for e in p.events:
+                if e.kind != 'call' or not (set(c for c in e.d['callees'] if isinstance(c, str))
+                                            & PROCESS_STATE_SETTERS):
+                    continue
+                vals = list(e.d['args']) + list((e.d.get('kwargs') or {}).values())
+                restoring = any(C.mentions(v, key_of(s_)) or key_of(v) == key_of(s_) for v in vals for s_ in saved)
+                if restoring:
+                    dirty = None
+                else:
+                    dirty = e
+                    if e.d.get('result') is not None:
+                        saved.append(e.d['result'])
+            if dirty is not None:
+                bad = (p, dirty)
+                break
+        ctx.check(bad is None, rid, f.short, f.loc(nodes[0]),
+                  'the change of process-wide state is undone on every exit',
+                  f'{f.short} changes process-wide state ({ast.unparse(nodes[0])[:50]}) and leaves through a path that '
+                  f'does not restore it ({"an exception" if bad and bad[0].outcome == "raise" else "a return"} after '
+                  f'{bad[1].loc() if bad else ""}): from then on every other solver in the process computes under the '
+                  f'changed setting', key=ctx.key_for(rid, f, nodes[0]))
+    if not sites:
+        ctx.ok(rid, 'iOpt/*', f'{n_calls} call sites scanned: none changes process-wide interpreter/numpy/warnings state',
+               'iOpt/')
+    ctx.floor(rid, 'call sites scanned for process-wide state setters', n_calls, 1000)
+
+
 def check(ctx: Ctx):
-    for rid, fn in (('R12.1', r12_1), ('R12.2', r12_2), ('R12.3', r12_3), ('R12.4', r12_4)):
+    for rid, fn in (('R12.1', r12_1), ('R12.2', r12_2), ('R12.3', r12_3), ('R12.4', r12_4), ('R12.5', r12_5)):
         if C.want(ctx, rid):
             fn(ctx)
     st = ctx.pta.stats()
